@@ -29,19 +29,22 @@
         ((cond (else result ...))
          (begin result ...))
         ((cond (test => result))
-         (let ((temp test))
-           (if temp (result temp))))
+         ((lambda (temp receiver) (if temp ((receiver) temp)))
+          test
+          (lambda () result)))
         ((cond (test => result) clause ...)
-         (let ((temp test))
-           (if temp
-               (result temp)
-               (cond clause ...))))
+         ((lambda (temp receiver rest)
+            (if temp
+                ((receiver) temp)
+                (rest)))
+          test
+          (lambda () result)
+          (lambda () (cond clause ...))))
         ((cond (test)) test)
         ((cond (test) clause ...)
-         (let ((temp test))
-            (if temp
-                temp
-               (cond clause ...))))
+         ((lambda (temp rest) (if temp temp (rest)))
+          test
+          (lambda () (cond clause ...))))
         ((cond (test result ...))
          (if test (begin result ...)))
         ((cond (test result ...)
